@@ -17,6 +17,7 @@ import (
 	"github.com/arloliu/go-secs/v2/verifsim/core"
 	"github.com/arloliu/go-secs/v2/verifsim/refhsms"
 	"github.com/arloliu/go-secs/v2/verifsim/rig"
+	"github.com/arloliu/go-secs/v2/verifsim/simhook"
 	"github.com/arloliu/go-secs/v2/verifsim/simnet"
 )
 
@@ -29,7 +30,7 @@ const (
 	sDeselected
 	sBetweenGenerations
 	sSelectRejected
-	sClosing // a graceful Close whose courtesy Separate is stalled by the peer: NotConnected, socket still open
+	sClosing    // a graceful Close whose courtesy Separate is stalled by the peer: NotConnected, socket still open
 	sClosedIdle // Close issued while NotConnected (listening / dialing) at the instant a TCP connection completes
 	nSituations
 )
@@ -76,12 +77,16 @@ type inbound struct {
 }
 
 type scenario struct {
-	Sit       int
-	Active    bool
-	Equip     bool
-	T7Short   bool
-	Senders   [][]callSpec
-	Inbound   int // data frames the peer sends during the not-selected window (link-up situations)
+	Sit     int
+	Active  bool
+	Equip   bool
+	T7Short bool
+	Senders [][]callSpec
+	Inbound int // data frames the peer sends during the not-selected window (link-up situations)
+	// Burst: the peer stops reading for longer than T8 (200 ms) while it sends its data frames, against
+	// a short sender queue: every Reject must still come out once it reads again
+	Burst     bool
+	Queue     int
 	Linktests int // Linktest.req the peer sends during the window
 	Pipe      int // data frames pipelined behind the select that establishes the session
 	PipeW     []bool
@@ -106,31 +111,33 @@ type harness struct {
 	selEntries int
 	wasSel     bool
 
-	pendingSel    *refhsms.RxFrame // SUT Select.req not answered yet
-	pendingSelC   *refhsms.Conn
-	establishing  bool
-	estSent       bool
-	inb           []inbound // data frames sent while not selected (expect Reject 4)
-	lts           []uint32  // linktest sys bytes sent in the window
-	pipe          []inbound // pipelined data frames
-	pipeConn      *refhsms.Conn
-	postDone      int
-	postOK        int
-	postTokens    map[string]bool
-	dropStart     uint64
-	dropEnd       uint64
-	windowConn    *refhsms.Conn
-	barrierSent   bool
-	barrierSys    uint32
-	windowOpenAt  time.Duration
-	closedOnce    bool
-	deselTx       *refhsms.TxFrame // the peer's stream that ends with the Deselect.req leaving the session deselected
-	queuedAsync   int
-	windowEndAt   time.Duration
-	closingData   int
-	reopened      bool
-	finalBarrier  uint32
-	finalBarrierC *refhsms.Conn
+	pendingSel     *refhsms.RxFrame // SUT Select.req not answered yet
+	pendingSelC    *refhsms.Conn
+	establishing   bool
+	estSent        bool
+	inb            []inbound // data frames sent while not selected (expect Reject 4)
+	lts            []uint32  // linktest sys bytes sent in the window
+	pipe           []inbound // pipelined data frames
+	pipeConn       *refhsms.Conn
+	postDone       int
+	postOK         int
+	postTokens     map[string]bool
+	dropStart      uint64
+	dropEnd        uint64
+	windowConn     *refhsms.Conn
+	barrierSent    bool
+	barrierSys     uint32
+	windowOpenAt   time.Duration
+	closedOnce     bool
+	obsLast        hsms.ConnState
+	leftSelectedAt time.Duration    // the last instant State() left Selected
+	deselTx        *refhsms.TxFrame // the peer's stream that ends with the Deselect.req leaving the session deselected
+	queuedAsync    int
+	windowEndAt    time.Duration
+	closingData    int
+	reopened       bool
+	finalBarrier   uint32
+	finalBarrierC  *refhsms.Conn
 }
 
 type when struct {
@@ -195,6 +202,11 @@ func genScenario(t *core.Tape) scenario {
 		if !sc.T7Short {
 			sc.Inbound = t.Choose("scn", 4)
 			sc.Linktests = t.Choose("scn", 3)
+			if t.Bias("scn", 1, 3) {
+				sc.Burst = true
+				sc.Queue = 1 + t.Choose("scn", 2)
+				sc.Inbound = sc.Queue + 2 + t.Choose("scn", 3)
+			}
 		}
 	}
 	sc.Pipe = t.Choose("scn", 5)
@@ -224,6 +236,10 @@ func Build(config string) core.BuildFunc {
 		}
 		o := rig.Opts{Active: sc.Active, Equip: sc.Equip, T3: 5 * time.Second, T6: 60 * time.Second, T7: t7, SessionID: &sess,
 			T5: 4 * time.Second, BackoffInit: 3 * time.Second, BackoffMult: 1, CloseTimeout: 2 * time.Second}
+		if sc.Burst {
+			o.QueueSize = sc.Queue
+			o.T8 = 200 * time.Millisecond
+		}
 		if sc.Sit == sConnecting && sc.Active {
 			o.ConnectTimeout = 3 * time.Second
 			o.BackoffInit = 500 * time.Millisecond
@@ -242,6 +258,17 @@ func Build(config string) core.BuildFunc {
 		}
 		r.P.OnFrame = h.onFrame
 		w.AddMonitor(h.poll)
+		h.obsLast = hsms.NotConnectedState
+		simhook.Observer = func() {
+			// exact instants at which State() left Selected (evaluated right after every atomic write)
+			st := r.C.State()
+			if st != h.obsLast {
+				if h.obsLast == hsms.SelectedState {
+					h.leftSelectedAt = w.Now()
+				}
+				h.obsLast = st
+			}
+		}
 		h.setup()
 
 		return &core.Scenario{
@@ -269,7 +296,7 @@ func (h *harness) describe() map[string]any {
 	}
 
 	return map[string]any{"situation": sitNames[sc.Sit], "active": sc.Active, "equip": sc.Equip, "t7short": sc.T7Short, "senders": ents,
-		"inbound": sc.Inbound, "linktests": sc.Linktests, "pipelined": sc.Pipe, "cuts": len(sc.Cuts), "session": sc.Session}
+		"inbound": sc.Inbound, "burstIntoClosedWindow": sc.Burst, "queue": sc.Queue, "linktests": sc.Linktests, "pipelined": sc.Pipe, "cuts": len(sc.Cuts), "session": sc.Session}
 }
 
 func (h *harness) liveConn() *refhsms.Conn {
@@ -492,6 +519,10 @@ func (h *harness) setup() {
 				h.deselTx = c.Tx[len(c.Tx)-1]
 			}
 			if w.T.Choose("scn", 2) == 1 {
+				// (no deselect/select churn in this variant: with the writer stalled and a short queue the
+				// receive path itself is back-pressured on its Deselect.rsp, so a re-select of the churn would
+				// be processed only after the stall, and data written then is written while Selected)
+				stream = refhsms.Frame(refhsms.Header{Session: sc.Session, SType: refhsms.STDeselectReq, Sys: sys}, nil)
 				// asynchronous sends accepted while Selected queue up behind a writer the peer has stalled;
 				// the Deselect.req overtakes them: when the writer moves again they meet the write-boundary
 				// gate and must not be written
@@ -651,6 +682,11 @@ func (h *harness) peerWindowTraffic() {
 	}
 	n := sc.Inbound + sc.Linktests
 	li := 0
+	if sc.Burst {
+		h.w.Fault("peer-stops-reading")
+		c.L.SetCap(8)
+		c.L.Stall(false, time.Duration(600+h.w.T.Choose("peer", 3)*400)*time.Millisecond)
+	}
 	for i := 0; i < n; i++ {
 		i := i
 		isLT := li < sc.Linktests && (i%2 == 1 || i >= sc.Inbound+li)
@@ -934,18 +970,20 @@ func (h *harness) final(reason string) {
 	// ---- 0. deselected by the peer: from the instant the Deselect.req reached the library until the
 	// window ended no data frame may have been STARTED on the wire (one whose first byte was already
 	// out when the session ended may finish)
-	if h.deselTx != nil && h.deselTx.DeliveredAt() >= 0 && h.windowEndAt > 0 {
-		from := h.deselTx.DeliveredAt()
+	if h.deselTx != nil && h.deselTx.DeliveredAt() >= 0 && h.windowEndAt > 0 && h.leftSelectedAt >= h.deselTx.DeliveredAt() && h.leftSelectedAt < h.windowEndAt {
+		// (the instant the library actually committed the deselect: the receive path may have been held
+		// up behind the stalled write; frames begun at that very instant are not judged)
+		from := h.leftSelectedAt
 		c := h.deselTx.C
 		for _, f := range c.Rx {
 			if f.H.PType != 0 || f.H.SType != refhsms.STData {
 				continue
 			}
 			start := f.EndOff - (14 + len(f.Body))
-			ws := c.L.ToPeer().WrittenAt(start + 1)
+			ws := c.L.ToPeer().CalledAt(start + 1) // when the library ISSUED the write of the frame's first byte
 			if ws > from && ws < h.windowEndAt {
 				tok, _ := refhsms.ParseASCII(f.Body)
-				w.Fail("DATA_WHILE_NOT_SELECTED", "the library began to write data frame %s (%q) at %v; the peer's Deselect.req had reached it at %v and the session was not selected again before %v (%d asynchronous sends had been accepted while Selected and were queued behind a stalled writer)", f.H, tok, ws, from, h.windowEndAt, h.queuedAsync)
+				w.Fail("DATA_WHILE_NOT_SELECTED", "the library began to write data frame %s (%q) at %v; State() had left Selected at %v and the session was not selected again before %v (%d asynchronous sends had been accepted while Selected and were queued behind a stalled writer)", f.H, tok, ws, from, h.windowEndAt, h.queuedAsync)
 
 				return
 			}
